@@ -163,6 +163,17 @@ def rollback_findings(F):
     oks = [blk for blk, i, st in cc.assigns() if st["lhs"]["l"] == 0 and not st["lhs"]["p"] and st["rv"]["k"] == "agg" and st["rv"].get("variant") == "Ok"]
     w = cc.uncrossed_path([d for _, d in T], oks, edges=okE, blocks=marks) if okE else [0]
     yield ("open-transaction=>ROLLBACK", bool(rb) and w is None, rb[0].where() if rb else "pgcat::server::Server::checkin_cleanup", w and cc.describe_path(w))
+    # ... and believed only if the server then says the transaction is over: Server::query returns Ok whatever the server answered
+    # (an ErrorResponse is not an Err), and a connection in copy-in mode consumes the ROLLBACK message as a protocol violation
+    if rb and okE:
+        after = set(cc.reach([d for _, d in okE]))
+        F2 = set()
+        for sw2, o, te, fe in bool_value_edges(cc, lambda o: o.kind == "call" and o.call.name == "pgcat::server::Server::in_transaction" and o.call.block in after, csw):
+            F2.add(fe)
+        fT2, fF2 = field_bool_edges(cc, "in_transaction", csw)
+        F2 |= {e for e in fF2 if e[0] in after}
+        w2 = cc.uncrossed_path([d for _, d in okE], oks, edges=F2, blocks=marks)
+        yield ("ROLLBACK-verified", w2 is None, rb[0].where(), w2 and cc.describe_path(w2))
 
 
 def set_shard_refusal_findings(F):
